@@ -505,9 +505,9 @@ class Dynamic(Parameter):
             gen._Dynamic_time_fn = obj._Dynamic_time_fn
 
         gen._Dynamic_last = None
-        # Would have usede None for this, but can't compare a fixedpoint
-        # number with None (e.g. 1>None but FixedPoint(1)>None can't be done)
-        gen._Dynamic_time = -1
+        # No time yet (None is only ever tested by identity: a fixedpoint
+        # number cannot be compared with it)
+        gen._Dynamic_time = None
 
         gen._saved_Dynamic_last = []
         gen._saved_Dynamic_time = []
@@ -567,7 +567,7 @@ class Dynamic(Parameter):
 
             time = time_fn()
 
-            if force or time!=gen._Dynamic_time:
+            if force or gen._Dynamic_time is None or time!=gen._Dynamic_time:
                 value = _produce_value(gen)
                 gen._Dynamic_last = value
                 gen._Dynamic_time = time
